@@ -520,5 +520,7 @@ def install(M):
         return _MISSING
     M.obj_attr_handlers['Radix'] = radix_attr
     ext['radix'].attrs['Radix'] = Builtin('Radix', lambda it, a, kw: Obj('Radix'))
+    M.obj_attr_handlers['Reason'] = lambda it, o, attr: (
+        Builtin('Reason.getErrorMessage', lambda it, a, kw: 'connection failed') if attr == 'getErrorMessage' else _MISSING)
     from . import fs_model
     fs_model.install(M)
